@@ -17,30 +17,30 @@ variable {E V W X S ε α : Type}
 /-! ## helpers -/
 
 /-- `hs[0]` of a non-empty translated header list = the model's `headD default` -/
-theorem goIdx_zero_hdrs (l : List MHdr) (h : 0 < l.length) :
+theorem msl_goIdx_zero_hdrs (l : List MHdr) (h : 0 < l.length) :
     goIdx (l.map cHdr) (0 : Int) = some (cHdr (l.headD default)) := by
   cases l with
   | nil => simp at h
   | cons a t => simp [goIdx]
 
 /-- `hs[0]` of an empty list panics -/
-theorem goIdx_zero_nil {β : Type} : goIdx ([] : List β) (0 : Int) = none := by simp [goIdx]
+theorem msl_goIdx_zero_nil {β : Type} : goIdx ([] : List β) (0 : Int) = none := by simp [goIdx]
 
-theorem ceilHalfMap (n : Nat) : goCeilDivInt (Int.ofNat n) 2 = Int.ofNat ((n + 1) / 2) := by
+theorem msl_ceilHalfMap (n : Nat) : goCeilDivInt (Int.ofNat n) 2 = Int.ofNat ((n + 1) / 2) := by
   simp [goCeilDivInt]
 
-theorem tdivHalf (a b : Nat) : Int.tdiv (Int.ofNat a + Int.ofNat b) 2 = Int.ofNat ((a + b) / 2) := by
+theorem msl_tdivHalf (a b : Nat) : Int.tdiv (Int.ofNat a + Int.ofNat b) 2 = Int.ofNat ((a + b) / 2) := by
   have eadd : Int.ofNat a + Int.ofNat b = Int.ofNat (a + b) := by simp
   rw [eadd]; simp [Int.tdiv]
 
 /-- `uint32(prefix) + uint32(n) * uint32(headerSize)` never differs from the model's `Nat` value seen as `uint32` -/
-theorem metaSize_u32 (n : Nat) :
+theorem msl_metaSize_u32 (n : Nat) :
     UInt32.ofNat Gen.mapMetaDataSlabPrefixSize + UInt32.ofInt (Int.ofNat n) * UInt32.ofNat Gen.mapSlabHeaderSize =
       u32 (Gen.mapMetaDataSlabPrefixSize + n * Gen.mapSlabHeaderSize) := by
   rw [u32_ofInt]; simp only [u32, UInt32.ofNat_add, UInt32.ofNat_mul]
 
 /-- `slices.Delete(l, i, i+1)` = `eraseIdx` -/
-theorem goSlicesDelete_one {β : Type} (l : List β) (i : Nat) (h : i < l.length) :
+theorem msl_goSlicesDelete_one {β : Type} (l : List β) (i : Nat) (h : i < l.length) :
     goSlicesDelete l (Int.ofNat i) (Int.ofNat i + (1 : Int)) = some (l.eraseIdx i) := by
   have e1 : Int.ofNat i + (1 : Int) = Int.ofNat (i + 1) := by simp
   have hd : (0 : Int) ≤ Int.ofNat i ∧ Int.ofNat i ≤ Int.ofNat (i + 1) ∧ Int.ofNat (i + 1) ≤ Int.ofNat l.length := by
@@ -51,14 +51,14 @@ theorem goSlicesDelete_one {β : Type} (l : List β) (i : Nat) (h : i < l.length
   simp [List.eraseIdx_eq_take_drop_succ]
 
 /-- `lendToRight` with a negative count panics (`left[len(left)-count:]` is out of range) -/
-theorem lendToRight_neg {β : Type} (l r : List β) (c : Int) (h : c < 0) : lendToRight l r c = none := by
+theorem msl_lendToRight_neg {β : Type} (l r : List β) (c : Int) (h : c < 0) : lendToRight l r c = none := by
   have hn : ¬ ((0 : Int) ≤ Int.ofNat l.length - c ∧ Int.ofNat l.length - c ≤ Int.ofNat l.length ∧
       Int.ofNat l.length ≤ Int.ofNat l.length) := by
     simp only [Int.ofNat_eq_natCast]; omega
   simp only [lendToRight, goSlice, Option.getD_some, Option.getD_none, if_neg hn]
 
 /-- `borrowFromRight` with a negative count panics (`right[:count]`) -/
-theorem borrowFromRight_neg {β : Type} (l r : List β) (c : Int) (h : c < 0) : borrowFromRight l r c = none := by
+theorem msl_borrowFromRight_neg {β : Type} (l r : List β) (c : Int) (h : c < 0) : borrowFromRight l r c = none := by
   have hn : ¬ ((0 : Int) ≤ 0 ∧ (0 : Int) ≤ c ∧ c ≤ Int.ofNat r.length) := by omega
   simp only [borrowFromRight, goSlice, Option.getD_some, Option.getD_none, if_neg hn]
 
@@ -70,7 +70,7 @@ theorem MapMetaDataSlab_Merge_full_eq_model (env : Env E V W X S ε) (l r : MMet
     (hpre : Gen.mapMetaDataSlabPrefixSize ≤ r.hdr.size) :
     MapMetaDataSlab_Merge env (cMeta l x) (.metaSlab (cMeta r y)) =
       some (none, cMeta (MMetaSlab.merge l r) x) := by
-  simp only [MapMetaDataSlab_Merge, MMetaSlab.merge, cMeta, cHdr, merge_eq, List.map_append, u32]
+  simp only [MapMetaDataSlab_Merge, MMetaSlab.merge, cMeta, cHdr, msl_merge_eq, List.map_append, u32]
   rw [UInt32.ofNat_add, UInt32.ofNat_sub hpre]
 
 /-- the failed type assertion `slab.(*MapMetaDataSlab)` panics -/
@@ -91,7 +91,7 @@ theorem MapMetaDataSlab_Split_full_eq_model (env : Env E V W X Ctx GE) (hS : Env
       match m.split c with
       | .error e => some (.nil, .nil, some e, cMeta m x, c)
       | .ok (l, r, c') => some (.metaSlab (cMeta l x), .metaSlab (cMeta r none), none, cMeta l x, c') := by
-  simp only [MapMetaDataSlab_Split, MMetaSlab.split, cMeta, List.length_map, int_dlt_two, ceilHalfMap,
+  simp only [MapMetaDataSlab_Split, MMetaSlab.split, cMeta, List.length_map, int_dlt_two, msl_ceilHalfMap,
     MapMetaDataSlab_SlabID, hS.gen, hsplit]
   by_cases hl : m.childHdrs.length < 2
   · simp [hl]
@@ -103,7 +103,7 @@ theorem MapMetaDataSlab_Split_full_eq_model (env : Env E V W X Ctx GE) (hS : Env
     have emul : Int.ofNat ((m.childHdrs.length + 1) / 2) * Int.ofNat Gen.mapSlabHeaderSize =
         Int.ofNat ((m.childHdrs.length + 1) / 2 * Gen.mapSlabHeaderSize) := by simp
     simp only [hl, decide_false, if_false, Bool.false_eq_true, Option.isNone_none, Bool.not_true,
-      split_eq _ _ hlen, ← List.map_drop, ← List.map_take, goIdx_zero_hdrs _ hne, emul, u32_ofInt]
+      msl_split_eq _ _ hlen, ← List.map_drop, ← List.map_take, msl_goIdx_zero_hdrs _ hne, emul, u32_ofInt]
     simp only [cHdr, u32, UInt32.ofNat_add, UInt32.ofNat_sub hcov']
 
 /-! ## LendToRight -/
@@ -116,7 +116,7 @@ theorem MapMetaDataSlab_LendToRight_full_eq_model (env : Env E V W X S ε) (l r 
     (hne : 0 < l.childHdrs.length + r.childHdrs.length) :
     MapMetaDataSlab_LendToRight env (cMeta l x) (.metaSlab (cMeta r y)) =
       some (none, cMeta (MMetaSlab.lendToRight l r).1 x, .metaSlab (cMeta (MMetaSlab.lendToRight l r).2 y)) := by
-  simp only [MapMetaDataSlab_LendToRight, MMetaSlab.lendToRight, cMeta, List.length_map, tdivHalf]
+  simp only [MapMetaDataSlab_LendToRight, MMetaSlab.lendToRight, cMeta, List.length_map, msl_tdivHalf]
   have esub : Int.ofNat (l.childHdrs.length + r.childHdrs.length) -
       Int.ofNat ((l.childHdrs.length + r.childHdrs.length) / 2) =
       Int.ofNat (l.childHdrs.length + r.childHdrs.length - (l.childHdrs.length + r.childHdrs.length) / 2) := by
@@ -132,16 +132,16 @@ theorem MapMetaDataSlab_LendToRight_full_eq_model (env : Env E V W X S ε) (l r 
       (l.childHdrs.length + r.childHdrs.length) / 2 := by omega
   have hne' : 0 < (l.childHdrs.drop ((l.childHdrs.length + r.childHdrs.length) / 2) ++ r.childHdrs).length := by
     rw [List.length_append, List.length_drop]; omega
-  simp only [eadd, esub, emv, lendToRight_eq _ _ _ hc, List.length_map, hk, ← List.map_drop, ← List.map_take,
-    ← List.map_append, goIdx_zero_hdrs _ hne', metaSize_u32]
+  simp only [eadd, esub, emv, msl_lendToRight_eq _ _ _ hc, List.length_map, hk, ← List.map_drop, ← List.map_take,
+    ← List.map_append, msl_goIdx_zero_hdrs _ hne', msl_metaSize_u32]
   simp only [cHdr]
 
 /-- outside the hypothesis on the move count the code panics (the model does not: it lends nothing) -/
 theorem MapMetaDataSlab_LendToRight_panics (env : Env E V W X S ε) (l r : MMetaSlab α) (x y : Option X)
     (hmv : l.childHdrs.length + 1 < r.childHdrs.length) :
     MapMetaDataSlab_LendToRight env (cMeta l x) (.metaSlab (cMeta r y)) = none := by
-  simp only [MapMetaDataSlab_LendToRight, cMeta, List.length_map, tdivHalf]
-  rw [lendToRight_neg _ _ _ (by simp only [Int.ofNat_eq_natCast]; omega)]
+  simp only [MapMetaDataSlab_LendToRight, cMeta, List.length_map, msl_tdivHalf]
+  rw [msl_lendToRight_neg _ _ _ (by simp only [Int.ofNat_eq_natCast]; omega)]
 
 /-- ... and with no child at all it panics on `rightSlab.childrenHeaders[0]` -/
 theorem MapMetaDataSlab_LendToRight_panics_empty (env : Env E V W X S ε) (l r : MMetaSlab α) (x y : Option X)
@@ -160,7 +160,7 @@ theorem MapMetaDataSlab_BorrowFromRight_full_eq_model (env : Env E V W X S ε) (
     MapMetaDataSlab_BorrowFromRight env (cMeta l x) (.metaSlab (cMeta r y)) =
       some (none, cMeta (MMetaSlab.borrowFromRight l r).1 x,
         .metaSlab (cMeta (MMetaSlab.borrowFromRight l r).2 y)) := by
-  simp only [MapMetaDataSlab_BorrowFromRight, MMetaSlab.borrowFromRight, cMeta, List.length_map, tdivHalf]
+  simp only [MapMetaDataSlab_BorrowFromRight, MMetaSlab.borrowFromRight, cMeta, List.length_map, msl_tdivHalf]
   have esub : Int.ofNat (l.childHdrs.length + r.childHdrs.length) -
       Int.ofNat ((l.childHdrs.length + r.childHdrs.length) / 2) =
       Int.ofNat (l.childHdrs.length + r.childHdrs.length - (l.childHdrs.length + r.childHdrs.length) / 2) := by
@@ -174,8 +174,8 @@ theorem MapMetaDataSlab_BorrowFromRight_full_eq_model (env : Env E V W X S ε) (
     rw [List.length_map]; omega
   have hne' : 0 < (r.childHdrs.drop ((l.childHdrs.length + r.childHdrs.length) / 2 - l.childHdrs.length)).length := by
     rw [List.length_drop]; omega
-  simp only [eadd, esub, emv, borrowFromRight_eq _ _ _ hc, ← List.map_drop, ← List.map_take,
-    ← List.map_append, goIdx_zero_hdrs _ hne', metaSize_u32]
+  simp only [eadd, esub, emv, msl_borrowFromRight_eq _ _ _ hc, ← List.map_drop, ← List.map_take,
+    ← List.map_append, msl_goIdx_zero_hdrs _ hne', msl_metaSize_u32]
   simp only [cHdr]
 
 /-- outside the hypothesis on the move count the code panics (the model does not: it moves nothing but still
@@ -183,8 +183,8 @@ theorem MapMetaDataSlab_BorrowFromRight_full_eq_model (env : Env E V W X S ε) (
 theorem MapMetaDataSlab_BorrowFromRight_panics (env : Env E V W X S ε) (l r : MMetaSlab α) (x y : Option X)
     (hmv : r.childHdrs.length < l.childHdrs.length) :
     MapMetaDataSlab_BorrowFromRight env (cMeta l x) (.metaSlab (cMeta r y)) = none := by
-  simp only [MapMetaDataSlab_BorrowFromRight, cMeta, List.length_map, tdivHalf]
-  rw [borrowFromRight_neg _ _ _ (by simp only [Int.ofNat_eq_natCast]; omega)]
+  simp only [MapMetaDataSlab_BorrowFromRight, cMeta, List.length_map, msl_tdivHalf]
+  rw [msl_borrowFromRight_neg _ _ _ (by simp only [Int.ofNat_eq_natCast]; omega)]
 
 /-- ... and with no child at all it panics on `rightSlab.childrenHeaders[0]` -/
 theorem MapMetaDataSlab_BorrowFromRight_panics_empty (env : Env E V W X S ε) (l r : MMetaSlab α) (x y : Option X)
@@ -206,7 +206,7 @@ theorem MapMetaDataSlab_updateChildrenHeadersAfterMerge_eq (env : Env E V W X S 
   have hri' : ri < ((m.childHdrs.map cHdr).set li (cHdr h)).length := by
     rw [List.length_set, List.length_map]; exact hri
   have eli : (Int.ofNat li).toNat = li := rfl
-  simp only [MapMetaDataSlab_updateChildrenHeadersAfterMerge, cMeta, hr, if_true, eli, goSlicesDelete_one _ _ hri']
+  simp only [MapMetaDataSlab_updateChildrenHeadersAfterMerge, cMeta, hr, if_true, eli, msl_goSlicesDelete_one _ _ hri']
   simp [List.eraseIdx_eq_take_drop_succ, List.map_take, List.map_drop]
 
 /-- the same with the generated record spelled out (the form a proof about `mergeChildren`, which also changes the
@@ -224,7 +224,7 @@ end metaSlab
 section examples
 
 /-- a storage environment that satisfies `EnvS` (every other parameter is a dummy) -/
-private def envEx : Env Unit Unit Unit Unit Ctx GE where
+private def msl_envEx : Env Unit Unit Unit Unit Ctx GE where
   Digester_Levels := 0
   MapSlab_CanLendToLeft := fun _ _ => false
   MapSlab_CanLendToRight := fun _ _ => false
@@ -250,74 +250,74 @@ private def envEx : Env Unit Unit Unit Unit Ctx GE where
   newSingleElement := fun c _ _ _ => ({}, none, c)
   wrapErrorfAsExternalErrorIfNeeded := fun e => e
 
-private theorem envEx_EnvS : EnvS envEx := ⟨fun _ _ => rfl, fun _ _ _ => rfl, fun _ _ => rfl, rfl⟩
+private theorem msl_envEx_EnvS : EnvS msl_envEx := ⟨fun _ _ => rfl, fun _ _ _ => rfl, fun _ _ => rfl, rfl⟩
 
 /-- child header `i` of the examples: slab ID (1, i), size 100, first key 10 * i -/
-private def hdrEx (i : Nat) : MHdr := { id := ⟨1, i⟩, size := 100, firstKey := 10 * i }
+private def msl_hdrEx (i : Nat) : MHdr := { id := ⟨1, i⟩, size := 100, firstKey := 10 * i }
 
 /-- an index slab with slab ID (1, id) and the children `is`, its size consistent with the number of children -/
-private def metaEx (id : Nat) (is : List Nat) : MMetaSlab Unit :=
+private def msl_metaEx (id : Nat) (is : List Nat) : MMetaSlab Unit :=
   { hdr := { id := ⟨1, id⟩, size := 12 + 18 * is.length, firstKey := 10 * is.headD 0 },
-    childHdrs := is.map hdrEx, children := is.map (fun _ => ()), root := false }
+    childHdrs := is.map msl_hdrEx, children := is.map (fun _ => ()), root := false }
 
 /-- what the examples look at: slab ID index, size, first key, slab ID indices of the children -/
-private def obs (m : MapMetaDataSlab Unit) : Nat × Nat × Nat × List Nat :=
+private def msl_obs (m : MapMetaDataSlab Unit) : Nat × Nat × Nat × List Nat :=
   (m.header.slabID.idx, m.header.size.toNat, m.header.firstKey.toNat, m.childrenHeaders.map (·.slabID.idx))
 
-private def obsSlab : MapSlab Unit Unit Unit → Option (Nat × Nat × Nat × List Nat)
-  | .metaSlab m => some (obs m)
+private def msl_obsSlab : MapSlab Unit Unit Unit → Option (Nat × Nat × Nat × List Nat)
+  | .metaSlab m => some (msl_obs m)
   | _ => none
 
 /-- Merge: theorem instantiated, and the generated code evaluated -/
-example : MapMetaDataSlab_Merge envEx (cMeta (metaEx 7 [1, 2]) none) (.metaSlab (cMeta (metaEx 8 [3, 4, 5]) none)) =
-    some (none, cMeta (MMetaSlab.merge (metaEx 7 [1, 2]) (metaEx 8 [3, 4, 5])) none) :=
-  MapMetaDataSlab_Merge_full_eq_model envEx _ _ _ _ (by decide)
-example : (MapMetaDataSlab_Merge envEx (cMeta (metaEx 7 [1, 2]) none)
-    (.metaSlab (cMeta (metaEx 8 [3, 4, 5]) none))).map (fun p => (p.1, obs p.2)) =
+example : MapMetaDataSlab_Merge msl_envEx (cMeta (msl_metaEx 7 [1, 2]) none) (.metaSlab (cMeta (msl_metaEx 8 [3, 4, 5]) none)) =
+    some (none, cMeta (MMetaSlab.merge (msl_metaEx 7 [1, 2]) (msl_metaEx 8 [3, 4, 5])) none) :=
+  MapMetaDataSlab_Merge_full_eq_model msl_envEx _ _ _ _ (by decide)
+example : (MapMetaDataSlab_Merge msl_envEx (cMeta (msl_metaEx 7 [1, 2]) none)
+    (.metaSlab (cMeta (msl_metaEx 8 [3, 4, 5]) none))).map (fun p => (p.1, msl_obs p.2)) =
       some (none, 7, 12 + 18 * 5, 10, [1, 2, 3, 4, 5]) := by rfl
 
 /-- Split: 5 children, 3 stay; the new slab gets the next slab ID of the storage (counter 40 -> 41) -/
-example : MapMetaDataSlab_Split envEx (cMeta (metaEx 7 [1, 2, 3, 4, 5]) (some ())) ⟨40, [], []⟩ =
-    match (metaEx 7 [1, 2, 3, 4, 5]).split ⟨40, [], []⟩ with
-    | .error e => some (.nil, .nil, some e, cMeta (metaEx 7 [1, 2, 3, 4, 5]) (some ()), ⟨40, [], []⟩)
+example : MapMetaDataSlab_Split msl_envEx (cMeta (msl_metaEx 7 [1, 2, 3, 4, 5]) (some ())) ⟨40, [], []⟩ =
+    match (msl_metaEx 7 [1, 2, 3, 4, 5]).split ⟨40, [], []⟩ with
+    | .error e => some (.nil, .nil, some e, cMeta (msl_metaEx 7 [1, 2, 3, 4, 5]) (some ()), ⟨40, [], []⟩)
     | .ok (l, r, c') => some (.metaSlab (cMeta l (some ())), .metaSlab (cMeta r none), none, cMeta l (some ()), c') :=
-  MapMetaDataSlab_Split_full_eq_model envEx envEx_EnvS rfl _ _ _ (by decide)
-example : (MapMetaDataSlab_Split envEx (cMeta (metaEx 7 [1, 2, 3, 4, 5]) (some ())) ⟨40, [], []⟩).map
-    (fun p => (obsSlab p.1, obsSlab p.2.1, p.2.2.1, obs p.2.2.2.1, p.2.2.2.2.ctr, p.2.2.2.2.eff)) =
+  MapMetaDataSlab_Split_full_eq_model msl_envEx msl_envEx_EnvS rfl _ _ _ (by decide)
+example : (MapMetaDataSlab_Split msl_envEx (cMeta (msl_metaEx 7 [1, 2, 3, 4, 5]) (some ())) ⟨40, [], []⟩).map
+    (fun p => (msl_obsSlab p.1, msl_obsSlab p.2.1, p.2.2.1, msl_obs p.2.2.2.1, p.2.2.2.2.ctr, p.2.2.2.2.eff)) =
       some (some (7, 12 + 18 * 3, 10, [1, 2, 3]), some (41, 12 + 18 * 2, 40, [4, 5]), none,
         (7, 12 + 18 * 3, 10, [1, 2, 3]), 41, [.alloc 1 ⟨1, 41⟩]) := by rfl
 /-- Split of a slab with one child: the error, nothing changed -/
-example : (MapMetaDataSlab_Split envEx (cMeta (metaEx 7 [1]) none) ⟨40, [], []⟩).map
-    (fun p => (obsSlab p.1, obsSlab p.2.1, p.2.2.1, obs p.2.2.2.1, p.2.2.2.2.ctr, p.2.2.2.2.eff)) =
+example : (MapMetaDataSlab_Split msl_envEx (cMeta (msl_metaEx 7 [1]) none) ⟨40, [], []⟩).map
+    (fun p => (msl_obsSlab p.1, msl_obsSlab p.2.1, p.2.2.1, msl_obs p.2.2.2.1, p.2.2.2.2.ctr, p.2.2.2.2.eff)) =
       some (none, none, some .slabSplit, (7, 12 + 18, 10, [1]), 40, []) := by rfl
 
 /-- LendToRight: 4 + 1 children -> 2 + 3 -/
-example : MapMetaDataSlab_LendToRight envEx (cMeta (metaEx 7 [1, 2, 3, 4]) none) (.metaSlab (cMeta (metaEx 8 [5]) none)) =
-    some (none, cMeta (MMetaSlab.lendToRight (metaEx 7 [1, 2, 3, 4]) (metaEx 8 [5])).1 none,
-      .metaSlab (cMeta (MMetaSlab.lendToRight (metaEx 7 [1, 2, 3, 4]) (metaEx 8 [5])).2 none)) :=
-  MapMetaDataSlab_LendToRight_full_eq_model envEx _ _ _ _ (by decide) (by decide)
-example : (MapMetaDataSlab_LendToRight envEx (cMeta (metaEx 7 [1, 2, 3, 4]) none)
-    (.metaSlab (cMeta (metaEx 8 [5]) none))).map (fun p => (p.1, obs p.2.1, obsSlab p.2.2)) =
+example : MapMetaDataSlab_LendToRight msl_envEx (cMeta (msl_metaEx 7 [1, 2, 3, 4]) none) (.metaSlab (cMeta (msl_metaEx 8 [5]) none)) =
+    some (none, cMeta (MMetaSlab.lendToRight (msl_metaEx 7 [1, 2, 3, 4]) (msl_metaEx 8 [5])).1 none,
+      .metaSlab (cMeta (MMetaSlab.lendToRight (msl_metaEx 7 [1, 2, 3, 4]) (msl_metaEx 8 [5])).2 none)) :=
+  MapMetaDataSlab_LendToRight_full_eq_model msl_envEx _ _ _ _ (by decide) (by decide)
+example : (MapMetaDataSlab_LendToRight msl_envEx (cMeta (msl_metaEx 7 [1, 2, 3, 4]) none)
+    (.metaSlab (cMeta (msl_metaEx 8 [5]) none))).map (fun p => (p.1, msl_obs p.2.1, msl_obsSlab p.2.2)) =
       some (none, (7, 12 + 18 * 2, 10, [1, 2]), some (8, 12 + 18 * 3, 30, [3, 4, 5])) := by rfl
 
 /-- BorrowFromRight: 1 + 4 children -> 2 + 3 -/
-example : MapMetaDataSlab_BorrowFromRight envEx (cMeta (metaEx 7 [1]) none) (.metaSlab (cMeta (metaEx 8 [2, 3, 4, 5]) none)) =
-    some (none, cMeta (MMetaSlab.borrowFromRight (metaEx 7 [1]) (metaEx 8 [2, 3, 4, 5])).1 none,
-      .metaSlab (cMeta (MMetaSlab.borrowFromRight (metaEx 7 [1]) (metaEx 8 [2, 3, 4, 5])).2 none)) :=
-  MapMetaDataSlab_BorrowFromRight_full_eq_model envEx _ _ _ _ (by decide) (by decide)
-example : (MapMetaDataSlab_BorrowFromRight envEx (cMeta (metaEx 7 [1]) none)
-    (.metaSlab (cMeta (metaEx 8 [2, 3, 4, 5]) none))).map (fun p => (p.1, obs p.2.1, obsSlab p.2.2)) =
+example : MapMetaDataSlab_BorrowFromRight msl_envEx (cMeta (msl_metaEx 7 [1]) none) (.metaSlab (cMeta (msl_metaEx 8 [2, 3, 4, 5]) none)) =
+    some (none, cMeta (MMetaSlab.borrowFromRight (msl_metaEx 7 [1]) (msl_metaEx 8 [2, 3, 4, 5])).1 none,
+      .metaSlab (cMeta (MMetaSlab.borrowFromRight (msl_metaEx 7 [1]) (msl_metaEx 8 [2, 3, 4, 5])).2 none)) :=
+  MapMetaDataSlab_BorrowFromRight_full_eq_model msl_envEx _ _ _ _ (by decide) (by decide)
+example : (MapMetaDataSlab_BorrowFromRight msl_envEx (cMeta (msl_metaEx 7 [1]) none)
+    (.metaSlab (cMeta (msl_metaEx 8 [2, 3, 4, 5]) none))).map (fun p => (p.1, msl_obs p.2.1, msl_obsSlab p.2.2)) =
       some (none, (7, 12 + 18 * 2, 10, [1, 2]), some (8, 12 + 18 * 3, 30, [3, 4, 5])) := by rfl
 
 /-- updateChildrenHeadersAfterMerge: child 1 replaced by the merged header, child 2 deleted -/
-example : (MapMetaDataSlab_updateChildrenHeadersAfterMerge envEx (cMeta (metaEx 7 [1, 2, 3, 4]) none)
-    (cHdr (hdrEx 9)) (Int.ofNat 1) (Int.ofNat 2)).map obs = some (7, 12 + 18 * 4, 10, [1, 9, 4]) := by rfl
+example : (MapMetaDataSlab_updateChildrenHeadersAfterMerge msl_envEx (cMeta (msl_metaEx 7 [1, 2, 3, 4]) none)
+    (cHdr (msl_hdrEx 9)) (Int.ofNat 1) (Int.ofNat 2)).map msl_obs = some (7, 12 + 18 * 4, 10, [1, 9, 4]) := by rfl
 
 /-! ### where the code and the model part outside the hypotheses (concrete inputs) -/
 
 /-- Merge with a right header size below the prefix size (here 0): Go's `0 - 12` wraps around, so the new size is
     `100 + 2^32 - 12` modulo 2^32 = 88; the model's truncated subtraction leaves 100 -/
-example : (MapMetaDataSlab_Merge envEx (cMeta ({ hdr := ⟨⟨1, 7⟩, 100, 0⟩, childHdrs := [], children := [], root := false } : MMetaSlab Unit) none)
+example : (MapMetaDataSlab_Merge msl_envEx (cMeta ({ hdr := ⟨⟨1, 7⟩, 100, 0⟩, childHdrs := [], children := [], root := false } : MMetaSlab Unit) none)
       (.metaSlab (cMeta ({ hdr := ⟨⟨1, 8⟩, 0, 0⟩, childHdrs := [], children := [], root := false } : MMetaSlab Unit) none))).map
         (fun p => p.2.header.size.toNat) = some 88 ∧
     (MMetaSlab.merge ({ hdr := ⟨⟨1, 7⟩, 100, 0⟩, childHdrs := [], children := [], root := false } : MMetaSlab Unit)
@@ -325,24 +325,24 @@ example : (MapMetaDataSlab_Merge envEx (cMeta ({ hdr := ⟨⟨1, 7⟩, 100, 0⟩
 
 /-- Split with a header size that does not cover the child headers that stay left (size 10, 2 children, one stays):
     Go's `10 - 18` wraps around, the right slab gets the size `2^32 - 8`; the model's truncated subtraction gives 0 -/
-example : (MapMetaDataSlab_Split envEx (cMeta ({ hdr := ⟨⟨1, 7⟩, 10, 0⟩, childHdrs := [hdrEx 1, hdrEx 2], children := [(), ()], root := false } : MMetaSlab Unit) none)
-      ⟨40, [], []⟩).map (fun p => (obsSlab p.2.1).map (·.2.1)) = some (some (2 ^ 32 - 8)) ∧
-    (match MMetaSlab.split ({ hdr := ⟨⟨1, 7⟩, 10, 0⟩, childHdrs := [hdrEx 1, hdrEx 2], children := [(), ()], root := false } : MMetaSlab Unit) ⟨40, [], []⟩ with
+example : (MapMetaDataSlab_Split msl_envEx (cMeta ({ hdr := ⟨⟨1, 7⟩, 10, 0⟩, childHdrs := [msl_hdrEx 1, msl_hdrEx 2], children := [(), ()], root := false } : MMetaSlab Unit) none)
+      ⟨40, [], []⟩).map (fun p => (msl_obsSlab p.2.1).map (·.2.1)) = some (some (2 ^ 32 - 8)) ∧
+    (match MMetaSlab.split ({ hdr := ⟨⟨1, 7⟩, 10, 0⟩, childHdrs := [msl_hdrEx 1, msl_hdrEx 2], children := [(), ()], root := false } : MMetaSlab Unit) ⟨40, [], []⟩ with
      | .ok (_, r, _) => some r.hdr.size
      | .error _ => none) = some 0 := ⟨by rfl, by rfl⟩
 
 /-- LendToRight with 1 + 3 children: the move count is -1, Go panics; the model lends nothing (1 + 3 children stay,
     sizes recomputed for 2 + 2) -/
-example : MapMetaDataSlab_LendToRight envEx (cMeta (metaEx 7 [1]) none) (.metaSlab (cMeta (metaEx 8 [2, 3, 4]) none)) = none ∧
-    ((MMetaSlab.lendToRight (metaEx 7 [1]) (metaEx 8 [2, 3, 4])).1.childHdrs.length,
-     (MMetaSlab.lendToRight (metaEx 7 [1]) (metaEx 8 [2, 3, 4])).2.childHdrs.length) = (1, 3) :=
-  ⟨MapMetaDataSlab_LendToRight_panics envEx _ _ _ _ (by decide), by decide⟩
+example : MapMetaDataSlab_LendToRight msl_envEx (cMeta (msl_metaEx 7 [1]) none) (.metaSlab (cMeta (msl_metaEx 8 [2, 3, 4]) none)) = none ∧
+    ((MMetaSlab.lendToRight (msl_metaEx 7 [1]) (msl_metaEx 8 [2, 3, 4])).1.childHdrs.length,
+     (MMetaSlab.lendToRight (msl_metaEx 7 [1]) (msl_metaEx 8 [2, 3, 4])).2.childHdrs.length) = (1, 3) :=
+  ⟨MapMetaDataSlab_LendToRight_panics msl_envEx _ _ _ _ (by decide), by decide⟩
 
 /-- BorrowFromRight with 3 + 1 children: the move count is -1, Go panics; the model moves nothing -/
-example : MapMetaDataSlab_BorrowFromRight envEx (cMeta (metaEx 7 [1, 2, 3]) none) (.metaSlab (cMeta (metaEx 8 [4]) none)) = none ∧
-    ((MMetaSlab.borrowFromRight (metaEx 7 [1, 2, 3]) (metaEx 8 [4])).1.childHdrs.length,
-     (MMetaSlab.borrowFromRight (metaEx 7 [1, 2, 3]) (metaEx 8 [4])).2.childHdrs.length) = (3, 1) :=
-  ⟨MapMetaDataSlab_BorrowFromRight_panics envEx _ _ _ _ (by decide), by decide⟩
+example : MapMetaDataSlab_BorrowFromRight msl_envEx (cMeta (msl_metaEx 7 [1, 2, 3]) none) (.metaSlab (cMeta (msl_metaEx 8 [4]) none)) = none ∧
+    ((MMetaSlab.borrowFromRight (msl_metaEx 7 [1, 2, 3]) (msl_metaEx 8 [4])).1.childHdrs.length,
+     (MMetaSlab.borrowFromRight (msl_metaEx 7 [1, 2, 3]) (msl_metaEx 8 [4])).2.childHdrs.length) = (3, 1) :=
+  ⟨MapMetaDataSlab_BorrowFromRight_panics msl_envEx _ _ _ _ (by decide), by decide⟩
 
 end examples
 
